@@ -497,6 +497,16 @@ func SolveQuick(text string, timeout time.Duration, seed int) Result {
 	return runOne(solvers[1], text, timeout, seed, context.Background())
 }
 
+// FiniteModel runs cvc5 with finite model finding: a quick source of candidate models for
+// obligations with quantified axioms over uninterpreted sorts. An "unknown" answer can
+// still carry a candidate; candidates are only trusted after replay on the real code.
+func FiniteModel(text string, timeout time.Duration, seed int) Result {
+	sp := solverSpec{"cvc5-1.0-fmf", func(f string, t time.Duration, seed int) []string {
+		return []string{"cvc5", "--finite-model-find", fmt.Sprintf("--tlimit=%d", t.Milliseconds()), fmt.Sprintf("--seed=%d", seed), f}
+	}, "(set-option :produce-models true)\n(set-logic ALL)\n"}
+	return runOne(sp, text, timeout, seed, context.Background())
+}
+
 // SolveAll runs every solver to completion and returns each answer (thorough tier).
 func SolveAll(text string, timeout time.Duration, seed int) []Result {
 	var wg sync.WaitGroup
